@@ -13,7 +13,10 @@ A `flatten` error ends the whole run (`SystemExit` / uncaught exception).
 
 The frontend is a parameter: per unit it either returns (`Frontend.gir`: a tree, or nothing for an
 unreadable / empty file or a tree-sitter failure) or an exception escapes `parse_gir`
-(`Frontend.raised`).  Two variants are kept side by side:
+(`Frontend.raised`).  `Frontend.raised` also stands for an exception raised while the GIR passes
+run on the unit's tree (second `fix:` commit: `deal_with_file_unit` reports the file, returns no rows
+and leaves the counter where it was) — in the model the passes are total, so this only happens for
+interpreter resource limits (`RecursionError` on very deep nesting), which are outside the model.  Two variants are kept side by side:
 * `unitRun` / `langRun`   — the code as it is in /repo now: `GIRParser.parse` reports the file with
                             `util.error` and returns nothing for it (the `fix:` commit);
 * `unitRun0` / `langRun0` — the pinned commit: the exception propagates and ends the run, so no unit
